@@ -123,6 +123,14 @@ EmptySet(t) ==
   /\ UNCHANGED <<seq, ncid, reg, regOrder, txs, all, crec, disk, frec, nextTx, ended, stale, ghost>>
   /\ Log("emptyset", [t |-> t], "emptykey", "emptykey")
 
+(* Delete with an empty key: nothing refuses it (store/delete.go has no such test); it leaves a tombstone for a key nobody  *)
+(* can write, which the model does not represent: for every reader it is the identity                                       *)
+EmptyDel(t) ==
+  /\ "emptydel" \in Ops
+  /\ quiet' = quiet
+  /\ UNCHANGED <<seq, ncid, reg, regOrder, txs, all, crec, disk, frec, nextTx, ended, stale, ghost>>
+  /\ Log("emptydel", [t |-> t], "ok", "ok")
+
 (* usecase/transaction/begin.go: draw a number, register *)
 Begin(l) ==
   /\ "begin" \in Ops
@@ -312,6 +320,7 @@ Next ==
   \/ \E t \in Writers, k \in Keys : Keep(Set(t, k))
   \/ \E t \in Writers, k \in Keys : Keep(Del(t, k))
   \/ \E t \in Writers : Keep(EmptySet(t))
+  \/ \E t \in Writers : Keep(EmptyDel(t))
   \/ \E l \in Levels : Keep(Begin(l))
   \/ \E t \in Open : Keep(Commit(t))
   \/ \E t \in Open : Keep(Rollback(t))
